@@ -291,6 +291,40 @@ def extract():
     g["httpMaxHeader"] = rust_int_expr(one(r"const MAX_HEADER_SIZE\s*:\s*usize\s*=\s*([^;]+);", http,
                                            "MAX_HEADER_SIZE").group(1), "MAX_HEADER_SIZE")
 
+    # ---- Server::listen: where the reloadable acceptor cell is read relative to accept() -------------
+    srv = strip_comments(read("src/server/server.rs"))
+    m = one(r"pub async fn listen\s*\(&self[^)]*\)[^{]*\{", srv, "Server::listen")
+    depth = 1
+    i = m.end()
+    while i < len(srv) and depth:
+        if srv[i] == "{":
+            depth += 1
+        elif srv[i] == "}":
+            depth -= 1
+        i += 1
+    listen_body = srv[m.end():i - 1]
+    loops = loop_bodies(listen_body)
+    if len(loops) != 1:
+        raise ExtractError(f"Server::listen: expected one accept loop, found {len(loops)}")
+    loop_start, loop_body = loops[0]
+    acc = [x.start() for x in re.finditer(r"listener\s*\.\s*accept\s*\(\s*\)", listen_body)]
+    rd = [x.start() for x in re.finditer(r"self\s*\.\s*tls_config\s*\.\s*read\s*\(\s*\)", listen_body)]
+    if len(acc) != 1 or len(rd) != 1:
+        raise ExtractError(f"Server::listen: expected one accept() and one read of tls_config, found {len(acc)} and {len(rd)}")
+    loop_end = loop_start + len(loop_body) + len("loop {")
+    if not (loop_start < acc[0] < loop_end):
+        raise ExtractError("Server::listen: accept() is not inside the loop")
+    if not (loop_start < rd[0] < loop_end + 8):
+        g["acceptorRead"] = "outsideLoop"
+    elif rd[0] > acc[0]:
+        # ... and inside the Ok arm of this accept (not in a task spawned later: the spawn takes the clone)
+        between = listen_body[acc[0]:rd[0]]
+        if "tokio::spawn" in between or "spawn(" in between:
+            raise ExtractError("Server::listen: the acceptor is read inside the spawned task (not modelled)")
+        g["acceptorRead"] = "afterAccept"
+    else:
+        g["acceptorRead"] = "beforeAccept"
+
     # ---- relay loops (server target relay, SOCKS5 and HTTP front-ends) ---------------------
     g["relaySites"] = (relay_sites("src/server/handler.rs", 2) + relay_sites("src/client/socks5.rs", 2)
                        + relay_sites("src/client/http_proxy.rs", 2))
@@ -352,6 +386,17 @@ def render(g):
     a(f"def udpMaxServer : Nat := {g['udpMaxServer']}")
     a(f"def udpMaxClient : Nat := {g['udpMaxClient']}")
     a(f"def httpMaxHeader : Nat := {g['httpMaxHeader']}")
+    a("")
+    a("/-- where `Server::listen` reads the reloadable acceptor cell: in the arm of a returned `accept()` (the")
+    a("connection gets what is current when it arrives), at the top of the loop before waiting in `accept()` (it gets")
+    a("what was current when the previous connection arrived), or once before the loop -/")
+    a("inductive AcceptorRead where")
+    a("  | afterAccept")
+    a("  | beforeAccept")
+    a("  | outsideLoop")
+    a("  deriving DecidableEq, Repr")
+    a("")
+    a(f"def acceptorRead : AcceptorRead := .{g['acceptorRead']}")
     a("")
     a("/-- the call that hands a chunk to the sink of a relay loop -/")
     a("inductive WriteKind where")
